@@ -17,7 +17,7 @@ from vf.model_patterns import INF, isnode
 INT_LITS = [-3, -2, -1, 0, 1, 2, 3, 4, 5, 7, 9]
 FLT_LITS = [k * 0.25 for k in (-10, -6, -4, -3, -2, -1, 0, 1, 2, 3, 4, 5, 6, 8, 10, 13, 18)]
 
-POLY = ['Pseq', 'Pser', 'Place', 'Pn', 'Plen', 'Pdrop', 'Pstutter', 'Pswitch',
+POLY = ['Pseq', 'Pser', 'Place', 'Placep', 'Pn', 'Plen', 'Pdrop', 'Pstutter', 'Pswitch',
         'Pswitch1', 'Pslide']
 NUMERIC = ['Pseries', 'Pgeom', 'Pdiff', 'Pconst', 'Pwrap', 'Pcollect',
            'Pselect', 'Preject', 'Pif', 'Punop', 'Pbinop', 'Pnarop',
@@ -170,6 +170,16 @@ class Gen:
             items = [i if isnode(i) else self.g(kind, d - 1) for i in items]
         off = r.randrange(len(items)) if r.random() < 0.4 else 0
         return ('Place', items, self.repeats(0, 4), off)
+
+    def mk_Placep(self, kind, d):
+        # sub-patterns of unequal length, re-polled on every pass
+        r = self.r
+        items = [self.g(self.subkind(kind), d - 1) if r.random() < 0.75
+                 else self.lit(kind) for _ in range(r.randint(1, 4))]
+        if not any(isnode(i) for i in items):
+            items[0] = self.g(self.subkind(kind), d - 1)
+        off = r.randrange(len(items)) if r.random() < 0.4 else 0
+        return ('Placep', items, self.repeats(0, 6, 0.3), off)
 
     def mk_Pn(self, kind, d):
         return ('Pn', self.g(self.subkind(kind), d - 1), self.repeats(0, 3))
